@@ -528,7 +528,7 @@ async fn run_inner(w: &Workload, chooser: &mut Chooser, seed: u64) -> Obs {
                 }
             }
             if w.record_wire {
-                obs.wire.push(WireEv { sent: true, t_ms: t, from: src, delivered: matches!(fault, Fault::None | Fault::DupNow | Fault::DupLate(_)), fault, dgram_len: d.data.len(), label: lab.clone(), sctp, sctp_raw_len: raw_len });
+                obs.wire.push(WireEv { sent: true, t_ms: t, from: src, delivered: matches!(fault, Fault::None | Fault::DupNow | Fault::DupMany(_) | Fault::DupLate(_)), fault, dgram_len: d.data.len(), label: lab.clone(), sctp, sctp_raw_len: raw_len });
             }
         }
         hash(&format!("{}|{}", now_ms(start), lab));
@@ -544,6 +544,15 @@ async fn run_inner(w: &Workload, chooser: &mut Chooser, seed: u64) -> Obs {
             Fault::DupNow => {
                 sim::deliver(&a, &b, &d, &mut buf).await;
                 sim::deliver(&a, &b, &d, &mut buf).await;
+                for hd in held.tick(dst) {
+                    log_late(&mut obs, w, &hd, &a, &b, now_ms(start));
+                    sim::deliver(&a, &b, &hd, &mut buf).await;
+                }
+            }
+            Fault::DupMany(k) => {
+                for _ in 0..=k {
+                    sim::deliver(&a, &b, &d, &mut buf).await;
+                }
                 for hd in held.tick(dst) {
                     log_late(&mut obs, w, &hd, &a, &b, now_ms(start));
                     sim::deliver(&a, &b, &hd, &mut buf).await;
